@@ -117,6 +117,9 @@ func LoadDeviceConfigs(ctx context.Context, wg *sync.WaitGroup) (DeviceConfigs, 
 
 func loadDirectory(root, configType string, configMap ConfigMap) (err error) {
 	err = filepath.Walk(root, func(path string, info fs.FileInfo, err error) error {
+		if err != nil {
+			return err
+		}
 		if info.IsDir() {
 			return nil
 		}
